@@ -139,6 +139,40 @@ theorem C16.adjoint_transpose (mode : Mode) (n m off : Nat) (x y : Nat → K)
   exact ⟨_, _, (ok_iff ..).2 ⟨hg.1.2 h, rfl⟩, (ok_iff ..).2 ⟨hg.2.2 h, rfl⟩,
     core_transpose mode n m off h x y⟩
 
+/-- **Constant padding is affine with linear part zero-padding** (`ResizingOperator.derivative`):
+for every `pad_const`, all sizes, accepted offsets and contents (growing, shrinking or unchanged
+axis), the difference of two results is the zero-padding resize of the difference of the
+inputs.  Hence the derivative of the non-linear operator (`pad_const ≠ 0`) at any point is the
+operator with `pad_const = 0`. -/
+theorem C16.constant_pad_affine (n m off : Nat) (c : K) (x x' : Nat → K)
+    (h : Admissible .constant n m off) :
+    ∃ r r' d, resize1d .constant .forward n m off c x = .ok r ∧
+      resize1d .constant .forward n m off c x' = .ok r' ∧
+      resize1d .constant .forward n m off 0 (fun j => x j - x' j) = .ok d ∧
+      ∀ i < m, r i - r' i = d i := by
+  have hg := fun c' : K => ((C16.guards_are_documented_limits .constant n m off c').1).2 h
+  refine ⟨_, _, _, (ok_iff ..).2 ⟨hg c, rfl⟩, (ok_iff ..).2 ⟨hg c, rfl⟩, (ok_iff ..).2 ⟨hg 0, rfl⟩, ?_⟩
+  intro i hi
+  rcases Nat.lt_trichotomy n m with hlt | heq | hgt
+  · have hoff := admissible_fits h hlt
+    rw [core_constant_fwd n m off c x hlt hoff i, core_constant_fwd n m off c x' hlt hoff i,
+      core_constant_fwd n m off 0 _ hlt hoff i]
+    simp only [npConstant]
+    split_ifs <;> simp
+  · subst heq
+    rw [core_same _ _ n off c x i hi, core_same _ _ n off c x' i hi, core_same _ _ n off 0 _ i hi]
+  · have := h.1 (by omega)
+    rw [core_fwd_crop _ n m off c x (by omega) (by omega) i hi,
+      core_fwd_crop _ n m off c x' (by omega) (by omega) i hi,
+      core_fwd_crop _ n m off 0 _ (by omega) (by omega) i hi]
+
+/-- non-vacuity: `pad_const = 5`, `(1,2) ↦ (5,1,2,5)`, `(3,1) ↦ (5,3,1,5)`, difference `(0,-2,1,0)` -/
+example : ∃ r r' d, resize1d .constant .forward 2 4 1 (5 : Int) (fun i => [1, 2].getD i 0) = .ok r ∧
+    resize1d .constant .forward 2 4 1 (5 : Int) (fun i => [3, 1].getD i 0) = .ok r' ∧
+    resize1d .constant .forward 2 4 1 (0 : Int) (fun i => [1, 2].getD i 0 - [3, 1].getD i 0) = .ok d ∧
+    (List.range 4).map (fun i => r i - r' i) = [0, -2, 1, 0] ∧ (List.range 4).map d = [0, -2, 1, 0] :=
+  ⟨_, _, _, rfl, rfl, rfl, by decide, by decide⟩
+
 /-- **All variants are linear except constant padding with a non-zero constant.**  With
 `pad_const = 0`, in every mode and direction and for all sizes and offsets, each entry of the
 result is one fixed finite linear combination `Σ_t a_t · x_{j_t}` of entries of the input
@@ -544,6 +578,74 @@ theorem C16.weighted_adjoint_nd (mode : Mode) (sIn sOut offs : List Nat)
     simp only [opAdjointND]
     field_simp
   rw [e1, e2, this]
+
+/-- **The adjoint as coded is `W_D⁻¹ Rᵀ W_R`.**  Whatever the weightings (constant/constant with
+the ratio of the constants, or arrays), boundary fractions, mode, sizes and offset: if
+`ResizingOperatorAdjoint._call` as coded (`opAdjointW`: fractions, weights or ratio,
+transpose-resize, fractions, weights) returns `ra`, then `ra` is, entry for entry, the normal
+form `opAdjointND` (multiply by the inner-product weights of the range, transpose-resize,
+divide by those of the domain) on the one-axis shapes — the two executed definitions agree.
+Uses that every adjoint resize is homogeneous (`LinArr.smul`); no non-zero hypothesis. -/
+theorem C16.adjoint_scaling_normal_form (mode : Mode) (m n off : Nat) (wR wD : Weighting F)
+    (fR fD y ra : Nat → F) (h : opAdjointW mode m n off wR fR wD fD y = .ok ra) (j : Nat) :
+    opAdjointND mode [m] [n] [off] (fun idx => innerWeight wR fR (idx.getD 0 0))
+      (fun idx => innerWeight wD fD (idx.getD 0 0)) (fun idx => y (idx.getD 0 0)) [j] = ra j := by
+  simp only [opAdjointND, resizeAxes, alongAxis, List.set_cons_zero, List.getD_cons_zero]
+  have hlin := LinArr.resizeCore (K := F) mode .adjoint m n off
+  cases wR with
+  | const a =>
+    cases wD with
+    | const b =>
+      simp only [opAdjointW] at h
+      cases hr : resize1d mode .adjoint m n off 0 (fun i => y i * fR i) with
+      | error e => simp [hr] at h
+      | ok r =>
+        simp only [hr, Except.ok.injEq] at h
+        obtain ⟨_, rfl⟩ := (ok_iff ..).1 hr
+        subst h
+        simp only [innerWeight, Weighting.at]
+        have e : (fun t => a * fR t * y t) = (fun t => a * (y t * fR t)) := by funext t; ring
+        rw [e, LinArr.smul hlin]
+        rw [div_mul_div_comm]; ring_nf
+    | array v =>
+      simp only [opAdjointW, Weighting.at] at h
+      cases hr : resize1d mode .adjoint m n off 0 (fun i => y i * fR i * a) with
+      | error e => simp [hr] at h
+      | ok r =>
+        simp only [hr, Except.ok.injEq] at h
+        obtain ⟨_, rfl⟩ := (ok_iff ..).1 hr
+        subst h
+        simp only [innerWeight, Weighting.at]
+        have e : (fun t => a * fR t * y t) = (fun t => y t * fR t * a) := by funext t; ring
+        rw [e, div_div, mul_comm (fD j)]
+  | array u =>
+    cases wD with
+    | const b =>
+      simp only [opAdjointW, Weighting.at] at h
+      cases hr : resize1d mode .adjoint m n off 0 (fun i => y i * fR i * u i) with
+      | error e => simp [hr] at h
+      | ok r =>
+        simp only [hr, Except.ok.injEq] at h
+        obtain ⟨_, rfl⟩ := (ok_iff ..).1 hr
+        subst h
+        simp only [innerWeight, Weighting.at]
+        have e : (fun t => u t * fR t * y t) = (fun t => y t * fR t * u t) := by funext t; ring
+        rw [e, div_div, mul_comm (fD j)]
+    | array v =>
+      simp only [opAdjointW, Weighting.at] at h
+      cases hr : resize1d mode .adjoint m n off 0 (fun i => y i * fR i * u i) with
+      | error e => simp [hr] at h
+      | ok r =>
+        simp only [hr, Except.ok.injEq] at h
+        obtain ⟨_, rfl⟩ := (ok_iff ..).1 hr
+        subst h
+        simp only [innerWeight, Weighting.at]
+        have e : (fun t => u t * fR t * y t) = (fun t => y t * fR t * u t) := by funext t; ring
+        rw [e, div_div, mul_comm (fD j)]
+
+/-- non-vacuity: range weighting 3, domain weighting 1/4 (the audit example), constant mode 6 → 4 -/
+example : ∃ ra, opAdjointW .constant 6 4 1 (.const (3 : Rat)) (fun _ => 1) (.const (1 / 4))
+    (fun _ => 1) (fun i => [1, 1, 2, 3, 5, 8].getD i 0) = .ok ra := ⟨_, rfl⟩
 
 end weighted
 
